@@ -13,12 +13,9 @@ import gen as G
 
 PID = 'C09'
 STATS = G.STATS
-PARTIAL = [
-    "unit_weights_same_point_curve_partial: 'a unit-weight rational shape evaluates like the non-rational one' is proved for "
-    "curves (A3.1 on every non-empty span); for surfaces and volumes it is checked by the exact oracle "
-    "(convert.bspline_to_nurbs + evaluate_single) and the generic lemma linComb_append1 only",
-]
 ASSUMPTIONS = [
+    "unit-weight / common-factor theorems are stated for the evaluation on a given non-empty knot span (SpanOk) resp. for "
+    "the model's evaluators; that evaluate_single uses these is the C01 correspondence (ops ceval/seval/veval, b2n, n2b here)",
     "object scripts keep the number of control points of an object fixed (the ctrlpts / weights setters zip the new list "
     "with the existing other view, so a longer list is silently truncated - recorded as an observation, not judged)",
     "nurbs_to_bspline: 'identically evaluating' is demanded for weights exactly 1; weights within the function's own tolerance "
